@@ -69,9 +69,11 @@ class Fam:
                                      slice_formula=True, sat_solver="cadical", function_label=label, where="src/SUNalg.cpp / include/SQuIDS/SUNalg.h"),
                               "suv_l1.c", props))
 
-    def add_proxy(self):
+    def add_proxy(self, fams=None):
         ct = self.template("proxy_l1.c")
         for f in range(9):
+            if fams and FAMS[f] not in fams:
+                continue
             for w in range(3):
                 self.jobs.append((l1.Job("assignProxy.%s.%s" % (FAMS[f], WRAP[w]), ct, "h_assignProxy", enforce="assignProxy", replace=PROXY_REPL,
                                          includes=INC, defines=["FIX_FAM=%d" % f, "FIX_WMODE=%d" % w], timeout=900, object_bits=10,
@@ -89,7 +91,7 @@ class Fam:
             self.jobs.append((l1.Job("guard." + g, ct, "h_" + g, enforce=g, replace=["sq_SUTrace"] if g == "op_dot" else [], includes=INC, timeout=300,
                                      function_label="entry point " + g, where="include/SQuIDS/SUNalg.h"), "guards_l1.c", "C14 C15"))
 
-    def add_kernels(self):
+    def add_kernels(self, fams=None):
         fired = {}
         dst, problems = l2.prep_su_inc_l1(self.bdir, fired)
         for k, v in fired.items():
@@ -99,6 +101,8 @@ class Fam:
                          "the kernel refers to its target outside a `+=` store")
         ct = self.template("kernels_l1.c")
         for f in range(9):
+            if fams and FAMS[f] not in fams:
+                continue
             for d in range(2, 7):
                 self.jobs.append((l1.Job("kernel.%s.d%d" % (FAMS[f], d), ct, "main", includes=[self.bdir] + INC, defines=["D=%d" % d, "FAM=%d" % f],
                                          slice_formula=True, timeout=300, function_label="detail::%sProxy::compute (d=%d)" % (FAMS[f], d),
